@@ -80,9 +80,9 @@ func (m *c10) Key() string {
 	var parts []string
 	for _, x := range m.qs {
 		if x.mb != nil {
-			parts = append(parts, fmt.Sprintf("B%d:%s:%v", x.mb.maxStaticBytes, ringKey(x.ring()), listLens(x.mb)))
+			parts = append(parts, fmt.Sprintf("B%d:%s:%v", x.mb.maxStaticBytes, ringKey(x.ring()), listLens(x.mb))+seqmc.Scalars(x.mb)+seqmc.Scalars(x.ring()))
 		} else {
-			parts = append(parts, "R:"+ringKey(x.ring()))
+			parts = append(parts, "R:"+ringKey(x.ring())+seqmc.Scalars(x.ring()))
 		}
 	}
 	return strings.Join(parts, "|")
